@@ -29,11 +29,11 @@ RTOL = 1e-7      # multiplied by the measured condition number for control point
 ATOL = 1e-11
 RULE = ('continuous objects: pardim 1-3, rational or not, bases open (clamped) or periodic (every continuity k) with interior '
         'multiplicities 1..p-1, orders 1..5; raise amounts 0..3 per direction as full tuples, single amounts, single amount + '
-        'direction=, set_order targets; negative amounts / lowering set_order / bad direction (ValueError); lower_order by the '
+        'direction=, set_order targets (tuple, and a single target on equal AND unequal orders); negative amounts / lowering set_order / bad direction (ValueError); lower_order by the '
         'same amounts on every elevated object; BSplineBasis.raise_order/lower_order directly.  non-trivial = some amount > 0.')
 REQUIRED_TAGS = ['model-exact-map=exact-same', 'model-exact-lower=exact-same', 'pardim=1', 'pardim=2', 'pardim=3', 'rational', 'periodic-dir', 'open-only', 'form=raise', 'form=set',
                  'form=base', 'args=single', 'args=direction', 'args=tuple', 'all-zero', 'negative', 'set-lowering',
-                 'amount=3', 'kind=basis', 'lower=ok', 'interior-mult>=2', 'ret=self']
+                 'amount=3', 'kind=basis', 'lower=ok', 'interior-mult>=2', 'ret=self', 'set-single-unequal', 'set-single-unequal-lowering']
 ASSUMPTIONS = ['np.linalg.inv / scipy spsolve are modelled by exact inverses (certificate-checked in the model); their '
                'rounding error is bounded by RTOL times the measured condition number of the collocation matrix']
 
@@ -120,6 +120,15 @@ def generate(rng, tier):
         if oi % 10 == 4:
             specs.append({'kind': 'obj', 'obj': o, 'form': 'raise', 'amounts': [1], 'direction': rng.choice([pardim, 3, -1]),
                           'lowers': []})
+        if pardim >= 2 and len(set(_orders(o))) > 1 and oi % 3 != 2:
+            # set_order with ONE argument on unequal orders: the target applies to every direction
+            ords = _orders(o)
+            t = max(ords) + rng.randint(0, 1 if pardim == 3 else 2)
+            specs.append({'kind': 'obj', 'obj': o, 'form': 'set', 'amounts': [t], 'direction': None,
+                          'lowers': [t - p for p in ords]})
+            # ... and must be rejected when the target is below the order of ANY direction (not just the first)
+            specs.append({'kind': 'obj', 'obj': o, 'form': 'set', 'amounts': [rng.randint(min(ords), max(ords) - 1)],
+                          'direction': None, 'lowers': []})
         if oi % 10 == 5 and pardim >= 2:                  # zero in one direction only / lower by less than raised
             d = rng.randrange(pardim)
             a2 = [0] * pardim
@@ -577,6 +586,8 @@ def tags(s, res):
     if s['form'] != 'set':
         out.append('args=direction' if s['direction'] is not None else 'args=single' if len(a) == 1 and pd > 1 else 'args=tuple')
     am = _norm_amounts(s)
+    if s['form'] == 'set' and len(a) == 1 and pd > 1 and len(set(_orders(o))) > 1:
+        out.append('set-single-unequal' if am is not None else 'set-single-unequal-lowering')
     if am is None:
         if s['form'] == 'set':
             out.append('set-lowering')
